@@ -180,4 +180,38 @@ theorem C06_rne64_bands (cfg : GroupCfg) (st : GState) (n : Nat) (Rc Cc Rm Cm : 
         (bandDelta rne64 cfg st p n Rc Rm).delta = (calcScaleUpDelta rne64 n p Rc Rm st.cachedCPU st.cachedMem cfg.scaleUp).delta) :=
   C06_float_bands rne64 _ StdModel_rne64 (by norm_num) cfg st n Rc Cc Rm Cm hRc hRc' hCc hCc' hRm hRm' hCm hCm' hl hl' hup hup' hs hs'
 
+/-- **C06 (the decision handed to the acting half of the scan, by exact band).** With both triggers off,
+    for the executed rounding function: the decision `scanDecide` computes — band decision on the computed
+    percentages, then the triggers — is `−fast`, `−slow` or `0` according to the band in which the exact
+    utilisation of the group clearly lies. (This is what the `decisionBad` monitor checks on observed scans,
+    in every mode including dry mode.) -/
+theorem C06_decision_exact (cfg : GroupCfg) (st : GState) (pu : PodUsage) (nc : NodeCap) (nowReal : Int)
+    (untainted tainted : List Node) (Rc Cc Rm Cm : Int)
+    (hRc : 0 ≤ Rc) (hRc' : Rc ≤ 2 ^ 53) (hCc : 1 ≤ Cc) (hCc' : Cc ≤ 2 ^ 53)
+    (hRm : 0 ≤ Rm) (hRm' : Rm ≤ 2 ^ 53) (hCm : 1 ≤ Cm) (hCm' : Cm ≤ 2 ^ 53)
+    (hl : 0 ≤ cfg.lower) (hl' : cfg.lower ≤ 2 ^ 53) (hup : 0 ≤ cfg.upper) (hup' : cfg.upper ≤ 2 ^ 53)
+    (hs : 0 ≤ cfg.scaleUp) (hs' : cfg.scaleUp ≤ 2 ^ 53)
+    (hstarve : cfg.scaleOnStarve = false) (hage : cfg.maxAgeNs ≤ 0) :
+    let U : Rat := max (100 * ((Rc : Rat) / Cc)) (100 * ((Rm : Rat) / Cm))
+    let d := applyTriggers cfg st pu nc nowReal untainted tainted
+      (bandDelta rne64 cfg st (calcPercent rne64 Rc Rm Cc Cm untainted.length) untainted.length Rc Rm).delta
+    (clearlyBelow U cfg.lower = true → d = -cfg.fast) ∧
+    (clearlyAbove U cfg.lower = true → clearlyBelow U cfg.upper = true → d = -cfg.slow) ∧
+    (clearlyAbove U cfg.lower = true → clearlyAbove U cfg.upper = true → clearlyBelow U cfg.scaleUp = true → d = 0) := by
+  intro U d
+  have hoff := C06_triggers_off cfg st pu nc nowReal untainted tainted hstarve hage
+  have htr := (C06_triggers cfg st pu nc nowReal untainted tainted
+    (bandDelta rne64 cfg st (calcPercent rne64 Rc Rm Cc Cm untainted.length) untainted.length Rc Rm).delta).2.2 hoff.1 hoff.2
+  have hpct : calcPercent rne64 Rc Rm Cc Cm untainted.length = .vals (pct1 rne64 Rc Cc) (pct1 rne64 Rm Cm) := by
+    unfold calcPercent
+    have h1 : Cc ≠ 0 := by omega
+    have h2 : Cm ≠ 0 := by omega
+    simp [h1, h2]
+  obtain ⟨B1, B2, B3, _⟩ := C06_rne64_bands cfg st untainted.length Rc Cc Rm Cm hRc hRc' hCc hCc' hRm hRm' hCm hCm' hl hl' hup hup' hs hs'
+  simp only [d, htr, hpct]
+  refine ⟨?_, ?_, ?_⟩
+  · intro h; rw [B1 h]
+  · intro h1 h2; rw [B2 h1 h2]
+  · intro h1 h2 h3; rw [B3 h1 h2 h3]
+
 end Esc.P
